@@ -150,6 +150,10 @@ pub enum Op {
     Release(u8),
     Iter,
     DropIter,
+    /// n puts of one key, one after the other (a "hot" key: n versions of one user key next to
+    /// each other in the memtable and, under a live snapshot, in the tables - iterators step over
+    /// them, blocks and filter ranges are crossed inside one user key)
+    PutMany(u8, u16),
     /// n gets of one key (exhausts allowed seeks -> seek compaction)
     GetMany(u8, u16),
     /// n fresh iterators, each seeking one key (iterators sample the entries they parse: charges
@@ -196,6 +200,7 @@ impl Op {
             Op::Release(i) => format!("release{}", i),
             Op::Iter => "iter".into(),
             Op::DropIter => "dropiter".into(),
+            Op::PutMany(i, n) => format!("put*{} {}", n, esc(&keys[*i as usize])),
             Op::GetMany(i, n) => format!("get*{} {}", n, esc(&keys[*i as usize])),
             Op::IterSeekMany(i, n) => format!("iterseek*{} {}", n, esc(&keys[*i as usize])),
             Op::Get(i) => format!("get {}", esc(&keys[*i as usize])),
@@ -698,6 +703,16 @@ impl World {
                             ),
                         ));
                     }
+                }
+            }
+            Op::PutMany(k, n) => {
+                let key = self.keys[*k as usize].clone();
+                for _ in 0..*n {
+                    self.stamp += 1;
+                    let val = value_for(self.stamp, *k, 0, &self.cfg);
+                    let r = self.db().put(WriteOptions::default(), key.clone(), val.clone());
+                    self.write_result("put", r)?;
+                    self.model.insert(key.clone(), val);
                 }
             }
             Op::GetMany(k, n) => {
